@@ -17,6 +17,16 @@
 // returned: nil is false, fmt.Errorf(..) / errors.New(..) are true, the message is dropped); a struct whose fields are
 // all integers or booleans is the tuple of its fields (composite literals, field reads, zero value); a call of a
 // translated function with several results may be assigned to several variables or returned as it is.
+// A METHOD is translated when the table names its receiver type: the receiver may only be used in field accesses
+// `c.f`; every field the body mentions becomes a parameter f_<field>, every field it assigns becomes a result (after the
+// method's own results, in the order of the struct declaration).  Fields (not locals, not parameters) may be slices of
+// an integer type: a `list Z` with len(c.f) = go_len, c.f[j] = go_nth (a partial operation: the test 0 <= j < len is
+// emitted in front of the statement, None = index out of range), c.f[j] = v / op= / ++ = go_upd; nothing else may be done
+// with a slice (no append, reslicing, copying into a variable, passing on), so no two names ever share an array.
+// `for i := range c.f` / `for range c.f` / `for i := range n` is a counting loop whose bound is evaluated once and
+// whose fuel is that bound + 1; `break` is accepted as the last statement of an `if` (or its else) that stands
+// directly in the loop body: an exit flag is threaded through the loop state.  `panic(..)` ends a path with None.  In a
+// partial function loops are `whileP` (the body may have no value).
 // Anything else is refused with
 // file:line and the construct; the function is then omitted from the output and the exit status is 1.
 //
@@ -50,6 +60,7 @@ type spec struct {
 	Fuel int               // fuel of every loop in the function (0: the function must be loop free)
 	Inst map[string]string // type parameter -> basic type name, for generic functions
 	Sfx  string            // suffix of the Coq name for an instantiation
+	Recv string            // receiver type name, for a method
 }
 
 // The table of translated functions.  Callees before callers.
@@ -73,6 +84,7 @@ var table = []spec{
 	{Dir: "pkg/protocol", Name: "buildLowEntropyParams"},
 	{Dir: "pkg/protocol", Name: "lowEntropyEncodedPayloadLen"},
 	{Dir: "pkg/protocol", Name: "maxFragmentSize"},
+	{Dir: "pkg/cipher", Name: "increaseNonce", Recv: "aeadBlockCipher"},
 }
 
 type pkgInfo struct {
@@ -179,6 +191,11 @@ type tr struct {
 	option  bool // the function has loops or can panic: result is option
 	partial bool // the function has an operation that can panic (None = panic)
 	guards  []string // conditions under which the expressions translated since the last takeGuards do not panic
+	recv    types.Object    // the receiver variable of a method
+	fields  []*types.Var    // receiver fields the body mentions (struct order): parameters
+	asg     []*types.Var    // receiver fields the body assigns (struct order): results
+	optK    map[string]bool // continuations whose type is an option (a None may be emitted in front of them)
+	breakK  string          // continuation of a `break` of the innermost loop ("" = no break allowed here)
 	results int
 	total   map[string]string // "pkgpath.Name<sfx>" -> coq name of already translated loop-free functions
 }
@@ -255,9 +272,64 @@ func (t *tr) structFields(ty types.Type) []*types.Var {
 	return fs
 }
 
+// sliceElem: the element type of a slice of integers.
+func (t *tr) sliceElem(ty types.Type) (types.Type, bool) {
+	if ty == nil {
+		return nil, false
+	}
+	sl, ok := ty.Underlying().(*types.Slice)
+	if !ok {
+		return nil, false
+	}
+	if s, err := t.ity(sl.Elem(), nil); err != nil || s == "bool" {
+		return nil, false
+	}
+	return sl.Elem(), true
+}
+
+// recvField: e is `c.f` with c the receiver; returns the field.
+func (t *tr) recvField(e ast.Expr) *types.Var {
+	se, ok := e.(*ast.SelectorExpr)
+	if !ok || t.recv == nil {
+		return nil
+	}
+	id, ok := se.X.(*ast.Ident)
+	if !ok || t.p.info.Uses[id] != t.recv {
+		return nil
+	}
+	f, ok := t.p.info.Uses[se.Sel].(*types.Var)
+	if !ok || !f.IsField() {
+		return nil
+	}
+	return f
+}
+
+// sliceRef: e must be a slice-typed receiver field (the only slices of the fragment); returns its Coq name.
+func (t *tr) sliceRef(e ast.Expr) (string, types.Type, error) {
+	for {
+		pe, ok := e.(*ast.ParenExpr)
+		if !ok {
+			break
+		}
+		e = pe.X
+	}
+	f := t.recvField(e)
+	if f == nil {
+		return "", nil, t.bad(e, "slice that is not a field of the receiver")
+	}
+	el, ok := t.sliceElem(f.Type())
+	if !ok {
+		return "", nil, t.bad(e, "field %s of type %s used as a slice of integers", f.Name(), f.Type())
+	}
+	return t.name(f), el, nil
+}
+
 func (t *tr) coqType(ty types.Type, n ast.Node) (string, error) {
 	if isError(ty) {
 		return "bool", nil
+	}
+	if _, ok := t.sliceElem(ty); ok {
+		return "(list Z)", nil
 	}
 	if fs := t.structFields(ty); fs != nil {
 		var cs []string
@@ -291,6 +363,9 @@ func (t *tr) name(o types.Object) string {
 	if o.Name() == "_" {
 		base = "v_blank"
 	}
+	if v, ok := o.(*types.Var); ok && v.IsField() {
+		base = "f_" + o.Name()
+	}
 	t.used[base]++
 	s := base
 	if t.used[base] > 1 {
@@ -298,6 +373,14 @@ func (t *tr) name(o types.Object) string {
 	}
 	t.names[o] = s
 	return s
+}
+
+func (t *tr) fresh(base string) string {
+	t.used[base]++
+	if t.used[base] > 1 {
+		return fmt.Sprintf("%s_%d", base, t.used[base])
+	}
+	return base
 }
 
 func zlit(v constant.Value) string {
@@ -379,7 +462,33 @@ func (t *tr) expr(e ast.Expr) (string, error) {
 			return vals[0], nil
 		}
 		return "(" + strings.Join(vals, ", ") + ")", nil
+	case *ast.IndexExpr:
+		x, el, err := t.sliceRef(e.X)
+		if err != nil {
+			return "", err
+		}
+		if !t.partial {
+			return "", t.bad(e, "internal: index expression in a function not marked partial")
+		}
+		if _, err := t.ity(el, e); err != nil {
+			return "", err
+		}
+		j, err := t.expr(e.Index)
+		if err != nil {
+			return "", err
+		}
+		t.guards = append(t.guards, "(andb (Z.leb 0 "+j+") (Z.ltb "+j+" (go_len "+x+")))")
+		return "(go_nth " + x + " " + j + ")", nil
 	case *ast.SelectorExpr:
+		if f := t.recvField(e); f != nil {
+			if _, ok := t.sliceElem(f.Type()); ok {
+				return "", t.bad(e, "slice field %s used as a value (only len, index and range are translated)", f.Name())
+			}
+			if _, err := t.coqType(f.Type(), e); err != nil {
+				return "", err
+			}
+			return t.name(f), nil
+		}
 		// field read of a struct-typed local (package-qualified constants were folded above)
 		xtv, ok := t.p.info.Types[e.X]
 		if !ok {
@@ -415,7 +524,13 @@ func (t *tr) expr(e ast.Expr) (string, error) {
 		if o == nil {
 			o = t.p.info.Defs[e]
 		}
+		if o != nil && o == t.recv {
+			return "", t.bad(e, "use of the receiver other than in a field access")
+		}
 		if v, ok := o.(*types.Var); ok && !v.IsField() {
+			if _, isSlice := v.Type().Underlying().(*types.Slice); isSlice {
+				return "", t.bad(e, "slice variable %s (only receiver fields may be slices)", e.Name)
+			}
 			if v.Parent() == t.p.pkg.Scope() || (v.Pkg() != nil && v.Parent() == v.Pkg().Scope()) {
 				return "", t.bad(e, "package-level variable %s", e.Name)
 			}
@@ -587,6 +702,15 @@ func (t *tr) expr(e ast.Expr) (string, error) {
 			}
 			return "(go_cast " + to + " " + x + ")", nil
 		}
+		if fid, ok := e.Fun.(*ast.Ident); ok {
+			if b, ok := t.p.info.Uses[fid].(*types.Builtin); ok && b.Name() == "len" && len(e.Args) == 1 {
+				x, _, err := t.sliceRef(e.Args[0])
+				if err != nil {
+					return "", err
+				}
+				return "(go_len " + x + ")", nil
+			}
+		}
 		var id *ast.Ident
 		switch f := e.Fun.(type) {
 		case *ast.Ident:
@@ -697,6 +821,76 @@ func elseList(s *ast.IfStmt) []ast.Stmt {
 	}
 }
 
+func isPanic(s ast.Stmt) bool {
+	es, ok := s.(*ast.ExprStmt)
+	if !ok {
+		return false
+	}
+	c, ok := es.X.(*ast.CallExpr)
+	if !ok {
+		return false
+	}
+	id, ok := c.Fun.(*ast.Ident)
+	return ok && id.Name == "panic"
+}
+
+func hasPanic(list []ast.Stmt) bool {
+	found := false
+	for _, s := range list {
+		ast.Inspect(s, func(n ast.Node) bool {
+			if st, ok := n.(ast.Stmt); ok && isPanic(st) {
+				found = true
+			}
+			return true
+		})
+	}
+	return found
+}
+
+func endsInBreak(list []ast.Stmt) bool {
+	if len(list) == 0 {
+		return false
+	}
+	b, ok := list[len(list)-1].(*ast.BranchStmt)
+	return ok && b.Tok == token.BREAK && b.Label == nil
+}
+
+// checkBreaks: in a loop body a `break` may only be the last statement of an `if` (or of its else block) that stands
+// directly in the body; no other jump.  Returns whether there is such a break, and the first offending node.
+func checkBreaks(body []ast.Stmt) (bool, ast.Node) {
+	uses := false
+	part := func(l []ast.Stmt) ast.Node {
+		if endsInBreak(l) {
+			uses = true
+			l = l[:len(l)-1]
+		}
+		if at, bad := hasJump(l); bad {
+			return at
+		}
+		return nil
+	}
+	for _, st := range body {
+		if is, ok := st.(*ast.IfStmt); ok {
+			if is.Init != nil {
+				if at, bad := hasJump([]ast.Stmt{is.Init}); bad {
+					return uses, at
+				}
+			}
+			if at := part(is.Body.List); at != nil {
+				return uses, at
+			}
+			if at := part(elseList(is)); at != nil {
+				return uses, at
+			}
+			continue
+		}
+		if at, bad := hasJump([]ast.Stmt{st}); bad {
+			return uses, at
+		}
+	}
+	return uses, nil
+}
+
 func terminates(list []ast.Stmt) bool {
 	if len(list) == 0 {
 		return false
@@ -704,6 +898,8 @@ func terminates(list []ast.Stmt) bool {
 	switch s := list[len(list)-1].(type) {
 	case *ast.ReturnStmt:
 		return true
+	case *ast.ExprStmt:
+		return isPanic(s)
 	case *ast.BlockStmt:
 		return terminates(s.List)
 	case *ast.IfStmt:
@@ -729,13 +925,21 @@ func (t *tr) assignedOutside(lists [][]ast.Stmt, lo, hi token.Pos) []types.Objec
 	seen := map[types.Object]bool{}
 	var out []types.Object
 	add := func(e ast.Expr) {
-		id, ok := e.(*ast.Ident)
-		if !ok || id.Name == "_" {
-			return
+		if ie, ok := e.(*ast.IndexExpr); ok {
+			e = ie.X
 		}
-		o := t.p.info.Defs[id]
-		if o == nil {
-			o = t.p.info.Uses[id]
+		var o types.Object
+		if f := t.recvField(e); f != nil {
+			o = f
+		} else {
+			id, ok := e.(*ast.Ident)
+			if !ok || id.Name == "_" {
+				return
+			}
+			o = t.p.info.Defs[id]
+			if o == nil {
+				o = t.p.info.Uses[id]
+			}
 		}
 		if o == nil || seen[o] {
 			return
@@ -784,6 +988,9 @@ func (t *tr) pat(vs []types.Object) string {
 }
 
 func (t *tr) ret(vals []string) string {
+	for _, f := range t.asg {
+		vals = append(vals, t.name(f))
+	}
 	v := vals[0]
 	if len(vals) > 1 {
 		v = "(" + strings.Join(vals, ", ") + ")"
@@ -820,6 +1027,15 @@ func (t *tr) zero(ty types.Type, n ast.Node) (string, error) {
 }
 
 func (t *tr) lhs(e ast.Expr) (string, error) {
+	if f := t.recvField(e); f != nil {
+		if _, ok := t.sliceElem(f.Type()); ok {
+			return "", t.bad(e, "assignment to the slice field %s itself", f.Name())
+		}
+		if _, err := t.coqType(f.Type(), e); err != nil {
+			return "", err
+		}
+		return t.name(f), nil
+	}
 	id, ok := e.(*ast.Ident)
 	if !ok {
 		return "", t.bad(e, "assignment to %T", e)
@@ -882,10 +1098,6 @@ func (t *tr) simple(s ast.Stmt, ind string) (string, error) {
 		}
 		return out, nil
 	case *ast.IncDecStmt:
-		l, err := t.lhs(s.X)
-		if err != nil {
-			return "", err
-		}
 		ty, err := t.ity(t.p.info.Types[s.X].Type, s)
 		if err != nil {
 			return "", err
@@ -894,8 +1106,26 @@ func (t *tr) simple(s ast.Stmt, ind string) (string, error) {
 		if s.Tok == token.DEC {
 			op = "go_sub"
 		}
+		if ie, ok := s.X.(*ast.IndexExpr); ok {
+			old, err := t.expr(ie)
+			if err != nil {
+				return "", err
+			}
+			return t.indexStore(ie, "("+op+" "+ty+" "+old+" 1)", ind)
+		}
+		l, err := t.lhs(s.X)
+		if err != nil {
+			return "", err
+		}
 		return ind + "let " + l + " := (" + op + " " + ty + " " + l + " 1) in\n", nil
 	case *ast.AssignStmt:
+		if ie, ok := s.Lhs[0].(*ast.IndexExpr); ok && s.Tok == token.ASSIGN && len(s.Lhs) == 1 && len(s.Rhs) == 1 {
+			v, err := t.expr(s.Rhs[0])
+			if err != nil {
+				return "", err
+			}
+			return t.indexStore(ie, v, ind)
+		}
 		if s.Tok == token.ASSIGN || s.Tok == token.DEFINE {
 			if len(s.Lhs) > 1 && len(s.Rhs) == 1 {
 				call, ok := s.Rhs[0].(*ast.CallExpr)
@@ -953,6 +1183,9 @@ func (t *tr) simple(s ast.Stmt, ind string) (string, error) {
 		if err != nil {
 			return "", err
 		}
+		if ie, ok := s.Lhs[0].(*ast.IndexExpr); ok {
+			return t.indexStore(ie, r, ind)
+		}
 		l, err := t.lhs(s.Lhs[0])
 		if err != nil {
 			return "", err
@@ -960,6 +1193,23 @@ func (t *tr) simple(s ast.Stmt, ind string) (string, error) {
 		return ind + "let " + l + " := " + r + " in\n", nil
 	}
 	return "", t.bad(s, "statement %T", s)
+}
+
+// indexStore: c.f[j] = val (the index test joins the guards of the statement).
+func (t *tr) indexStore(ie *ast.IndexExpr, val string, ind string) (string, error) {
+	x, _, err := t.sliceRef(ie.X)
+	if err != nil {
+		return "", err
+	}
+	if !t.partial {
+		return "", t.bad(ie, "internal: index store in a function not marked partial")
+	}
+	j, err := t.expr(ie.Index)
+	if err != nil {
+		return "", err
+	}
+	t.guards = append(t.guards, "(andb (Z.leb 0 "+j+") (Z.ltb "+j+" (go_len "+x+")))")
+	return ind + "let " + x + " := (go_upd " + x + " " + j + " " + val + ") in\n", nil
 }
 
 // takeGuards returns (and forgets) the conjunction of the no-panic conditions collected since the last call; "" if none.
@@ -973,8 +1223,8 @@ func (t *tr) takeGuards(k string, n ast.Node) (string, error) {
 		g = "(andb " + g + " " + x + ")"
 	}
 	t.guards = nil
-	if k != "" {
-		return "", t.bad(n, "operation that can panic inside a loop body or inside a branch that falls through")
+	if k != "" && !t.optK[k] {
+		return "", t.bad(n, "operation that can panic inside a branch that falls through (or inside the loop of a total function)")
 	}
 	return g, nil
 }
@@ -1015,8 +1265,8 @@ func (t *tr) seq(list []ast.Stmt, k string, ind string) (string, error) {
 				}
 			}
 		}
-		if len(s.Results) != t.results || t.results == 0 {
-			return "", t.bad(s, "return with %d values (bare returns are not translated)", len(s.Results))
+		if len(s.Results) != t.results || (t.results == 0 && len(t.asg) == 0) {
+			return "", t.bad(s, "return with %d values (bare returns of named results are not translated)", len(s.Results))
 		}
 		var vals []string
 		for _, r := range s.Results {
@@ -1078,44 +1328,74 @@ func (t *tr) seq(list []ast.Stmt, k string, ind string) (string, error) {
 		if err != nil {
 			return "", err
 		}
-		inner := append([]ast.Stmt{}, s.Body.List...)
-		if s.Post != nil {
-			inner = append(inner, s.Post)
-		}
-		if at, bad := hasJump(inner); bad {
-			return "", t.bad(at, "break / continue / return / goto / defer inside a loop")
-		}
-		vs := t.assignedOutside([][]ast.Stmt{inner}, s.Body.Pos(), s.Body.End())
-		if len(vs) == 0 {
-			return "", t.bad(s, "loop that assigns no variable declared outside its body")
-		}
-		c, err := t.expr(s.Cond)
+		out, err := t.loop(s, s.Body, s.Post, func() (string, error) { return t.expr(s.Cond) }, nil, "", fmt.Sprint(t.sp.Fuel)+"%nat", rest, k, ind)
 		if err != nil {
 			return "", err
 		}
-		if len(t.guards) > 0 {
-			t.guards = nil
-			return "", t.bad(s.Cond, "operation that can panic in a loop condition")
-		}
-		b, err := t.seq(inner, t.tuple(vs), ind+"    ")
-		if err != nil {
-			return "", err
-		}
-		k2, err := t.seq(rest, k, ind+"  ")
-		if err != nil {
-			return "", err
-		}
-		if !t.option {
-			return "", t.bad(s, "internal: loop in a function not marked option")
-		}
-		out := ind + "match while " + fmt.Sprint(t.sp.Fuel) + "%nat\n" +
-			ind + "  (fun " + t.pat(vs) + " => " + c + ")\n" +
-			ind + "  (fun " + t.pat(vs) + " =>\n" + b + ind + "  )\n" +
-			ind + "  " + t.tuple(vs) + " with\n" +
-			ind + "| None => None\n" +
-			ind + "| Some " + t.tuple(vs) + " =>\n" + k2 + ind + "end\n"
 		return guarded(g1, ind, pre+out), nil
-	case *ast.RangeStmt, *ast.ExprStmt, *ast.GoStmt, *ast.DeferStmt, *ast.BranchStmt, *ast.LabeledStmt, *ast.SelectStmt, *ast.SendStmt, *ast.TypeSwitchStmt:
+	case *ast.RangeStmt:
+		if s.Value != nil {
+			return "", t.bad(s, "range with a value variable")
+		}
+		var key types.Object
+		if s.Key != nil {
+			id, ok := s.Key.(*ast.Ident)
+			if !ok || s.Tok != token.DEFINE {
+				return "", t.bad(s, "range key that is not a new variable")
+			}
+			if id.Name != "_" {
+				key = t.p.info.Defs[id]
+			}
+		}
+		var bound string
+		if _, ok := t.sliceElem(t.p.info.Types[s.X].Type); ok {
+			x, _, err := t.sliceRef(s.X)
+			if err != nil {
+				return "", err
+			}
+			bound = "(go_len " + x + ")"
+		} else if ty, err := t.ity(t.p.info.Types[s.X].Type, s.X); err == nil && ty != "bool" {
+			if bound, err = t.expr(s.X); err != nil {
+				return "", err
+			}
+		} else {
+			return "", t.bad(s, "range over %s", t.p.info.Types[s.X].Type)
+		}
+		g1, err := t.takeGuards(k, s)
+		if err != nil {
+			return "", err
+		}
+		// the bound is evaluated once; the counter is a fresh state variable (the key, if there is one)
+		lenN := t.fresh("v_len")
+		var iN string
+		if key != nil {
+			iN = t.name(key)
+		} else {
+			iN = t.fresh("v_idx")
+		}
+		pre := ind + "let " + lenN + " := " + bound + " in\n" + ind + "let " + iN + " := 0 in\n"
+		out, err := t.loop(s, s.Body, nil, func() (string, error) { return "(Z.ltb " + iN + " " + lenN + ")", nil },
+			[]string{iN}, "let "+iN+" := (go_add (I 64) "+iN+" 1) in ", "(Datatypes.S (Z.to_nat "+lenN+"))", rest, k, ind)
+		if err != nil {
+			return "", err
+		}
+		return guarded(g1, ind, pre+out), nil
+	case *ast.ExprStmt:
+		if isPanic(s) {
+			if b, ok := t.p.info.Uses[s.X.(*ast.CallExpr).Fun.(*ast.Ident)].(*types.Builtin); ok && b.Name() == "panic" {
+				if !t.partial || (k != "" && !t.optK[k]) {
+					return "", t.bad(s, "panic where the result has no None")
+				}
+				return ind + "None\n", nil
+			}
+		}
+		return "", t.bad(s, "statement %T", s)
+	case *ast.BranchStmt:
+		if s.Tok == token.BREAK && s.Label == nil && t.breakK != "" && len(rest) == 0 {
+			return ind + t.breakK + "\n", nil
+		}
+		return "", t.bad(s, "%s here", s.Tok)
+	case *ast.GoStmt, *ast.DeferStmt, *ast.LabeledStmt, *ast.SelectStmt, *ast.SendStmt, *ast.TypeSwitchStmt:
 		return "", t.bad(s, "statement %T", s)
 	default:
 		pre, err := t.simple(s, ind)
@@ -1131,7 +1411,129 @@ func (t *tr) seq(list []ast.Stmt, k string, ind string) (string, error) {
 	}
 }
 
+// loop emits one loop: body (+ post statement) as the loop body, cond() as its test (translated after the state
+// variables are known), own = state variables that belong to the loop itself (the range counter), postStr = text put in
+// front of the body's final state (the counter's increment), fuel = a nat term.
+func (t *tr) loop(s ast.Stmt, body *ast.BlockStmt, post ast.Stmt, cond func() (string, error), own []string, postStr, fuel string,
+	rest []ast.Stmt, k, ind string) (string, error) {
+	usesBreak, at := checkBreaks(body.List)
+	if at != nil {
+		return "", t.bad(at, "jump inside a loop other than a break that ends an if standing directly in the loop body")
+	}
+	inner := append([]ast.Stmt{}, body.List...)
+	if post != nil {
+		if at, bad := hasJump([]ast.Stmt{post}); bad {
+			return "", t.bad(at, "jump in a post statement")
+		}
+		inner = append(inner, post)
+	}
+	vs := t.assignedOutside([][]ast.Stmt{inner}, body.Pos(), body.End())
+	var names []string
+	for _, v := range vs {
+		n := t.name(v)
+		dup := false
+		for _, o := range own {
+			dup = dup || o == n
+		}
+		if !dup {
+			names = append(names, n)
+		}
+	}
+	names = append(names, own...)
+	pre := ""
+	brk := ""
+	if usesBreak {
+		brk = t.fresh("v_brk")
+		pre = ind + "let " + brk + " := false in\n"
+	}
+	if len(names) == 0 {
+		return "", t.bad(s, "loop that assigns no variable declared outside its body")
+	}
+	state := func(b string) string {
+		l := names
+		if brk != "" {
+			l = append([]string{b}, names...)
+		}
+		if len(l) == 1 {
+			return l[0]
+		}
+		return "(" + strings.Join(l, ", ") + ")"
+	}
+	pat := state(brk)
+	if strings.HasPrefix(pat, "(") {
+		pat = "'" + pat
+	}
+	c, err := cond()
+	if err != nil {
+		return "", err
+	}
+	if len(t.guards) > 0 {
+		t.guards = nil
+		return "", t.bad(s, "operation that can panic in a loop condition")
+	}
+	if brk != "" {
+		c = "(andb (negb " + brk + ") " + c + ")"
+	}
+	op, some := "while", ""
+	if t.partial {
+		op, some = "whileP", "Some "
+	}
+	kBody := postStr + some + state("false")
+	kBreak := some + state("true")
+	if t.partial {
+		t.optK[kBody] = true
+	}
+	saved := t.breakK
+	t.breakK = ""
+	if usesBreak {
+		t.breakK = kBreak
+	}
+	b, err := t.seq(inner, kBody, ind+"    ")
+	t.breakK = saved
+	if err != nil {
+		return "", err
+	}
+	k2, err := t.seq(rest, k, ind+"  ")
+	if err != nil {
+		return "", err
+	}
+	if !t.option {
+		return "", t.bad(s, "internal: loop in a function not marked option")
+	}
+	return pre + ind + "match " + op + " " + fuel + "\n" +
+		ind + "  (fun " + pat + " => " + c + ")\n" +
+		ind + "  (fun " + pat + " =>\n" + b + ind + "  )\n" +
+		ind + "  " + state(brk) + " with\n" +
+		ind + "| None => None\n" +
+		ind + "| Some " + state(brk) + " =>\n" + k2 + ind + "end\n", nil
+}
+
 func (t *tr) branch(c string, A, B, rest []ast.Stmt, k string, ind string, at ast.Node) (string, error) {
+	cat0 := func(x, y []ast.Stmt) []ast.Stmt { return append(append([]ast.Stmt{}, x...), y...) }
+	if (hasPanic(A) || hasPanic(B)) && k != "" && !t.optK[k] {
+		return "", t.bad(at, "panic inside a branch that falls through (or inside the loop of a total function)")
+	}
+	if bA, bB := endsInBreak(A), endsInBreak(B); bA || bB {
+		if t.breakK == "" {
+			return "", t.bad(at, "break outside the statement list of a loop body")
+		}
+		la, lb := A, B
+		if !bA {
+			la = cat0(A, rest)
+		}
+		if !bB {
+			lb = cat0(B, rest)
+		}
+		a, err := t.seq(la, k, ind+"  ")
+		if err != nil {
+			return "", err
+		}
+		b, err := t.seq(lb, k, ind+"  ")
+		if err != nil {
+			return "", err
+		}
+		return ind + "if " + c + " then\n" + a + ind + "else\n" + b, nil
+	}
 	tA, tB := terminates(A), terminates(B)
 	rA, rB := hasReturn(A), hasReturn(B)
 	cat := func(x, y []ast.Stmt) []ast.Stmt { return append(append([]ast.Stmt{}, x...), y...) }
@@ -1269,6 +1671,14 @@ func (t *tr) canPanic(b *ast.BlockStmt) bool {
 	found := false
 	ast.Inspect(b, func(n ast.Node) bool {
 		switch n := n.(type) {
+		case *ast.ExprStmt:
+			if isPanic(n) {
+				found = true
+			}
+		case *ast.IndexExpr:
+			if _, ok := t.sliceElem(t.p.info.Types[n.X].Type); ok {
+				found = true
+			}
 		case *ast.BinaryExpr:
 			if (n.Op == token.SHL || n.Op == token.SHR) && !t.isUnsignedOrConst(n.Y) {
 				found = true
@@ -1291,12 +1701,72 @@ func (t *tr) canPanic(b *ast.BlockStmt) bool {
 	return found
 }
 
+// scanFields collects the receiver fields the body mentions (parameters) and those it assigns (results), in the order of
+// the struct declaration.
+func (t *tr) scanFields(fd *ast.FuncDecl) error {
+	used, asg := map[*types.Var]bool{}, map[*types.Var]bool{}
+	mark := func(e ast.Expr) {
+		if ie, ok := e.(*ast.IndexExpr); ok {
+			e = ie.X
+		}
+		if f := t.recvField(e); f != nil {
+			asg[f] = true
+		}
+	}
+	ast.Inspect(fd.Body, func(n ast.Node) bool {
+		switch n := n.(type) {
+		case *ast.SelectorExpr:
+			if f := t.recvField(n); f != nil {
+				used[f] = true
+			}
+		case *ast.AssignStmt:
+			for _, l := range n.Lhs {
+				mark(l)
+			}
+		case *ast.IncDecStmt:
+			mark(n.X)
+		}
+		return true
+	})
+	rt := t.recv.Type()
+	if pt, ok := rt.(*types.Pointer); ok {
+		rt = pt.Elem()
+	}
+	st, ok := rt.Underlying().(*types.Struct)
+	if !ok {
+		return t.bad(fd, "receiver of type %s", t.recv.Type())
+	}
+	for i := 0; i < st.NumFields(); i++ {
+		f := st.Field(i)
+		if used[f] {
+			t.fields = append(t.fields, f)
+		}
+		if asg[f] {
+			t.asg = append(t.asg, f)
+		}
+	}
+	return nil
+}
+
 func translate(p *pkgInfo, sp spec, total map[string]string) (coqName, text string, isTotal bool, err error) {
 	var fd *ast.FuncDecl
 	for _, f := range p.files {
 		for _, d := range f.Decls {
-			if g, ok := d.(*ast.FuncDecl); ok && g.Recv == nil && g.Name.Name == sp.Name {
+			g, ok := d.(*ast.FuncDecl)
+			if !ok || g.Name.Name != sp.Name {
+				continue
+			}
+			if sp.Recv == "" && g.Recv == nil {
 				fd = g
+			}
+			if sp.Recv != "" && g.Recv != nil && len(g.Recv.List) == 1 {
+				rt := g.Recv.List[0].Type
+				if st, ok := rt.(*ast.StarExpr); ok {
+					rt = st.X
+				}
+				if id, ok := rt.(*ast.Ident); ok && id.Name == sp.Recv {
+					fd = g
+				}
 			}
 		}
 	}
@@ -1304,7 +1774,16 @@ func translate(p *pkgInfo, sp spec, total map[string]string) (coqName, text stri
 	if fd == nil || fd.Body == nil {
 		return coqName, "", false, fmt.Errorf("%s: function %s not found (or has no body)", sp.Dir, sp.Name)
 	}
-	t := &tr{p: p, sp: sp, names: map[types.Object]string{}, used: map[string]int{}, total: total}
+	t := &tr{p: p, sp: sp, names: map[types.Object]string{}, used: map[string]int{}, total: total, optK: map[string]bool{}}
+	if fd.Recv != nil {
+		if len(fd.Recv.List[0].Names) != 1 {
+			return coqName, "", false, t.bad(fd, "method without a receiver name")
+		}
+		t.recv = p.info.Defs[fd.Recv.List[0].Names[0]]
+		if err := t.scanFields(fd); err != nil {
+			return coqName, "", false, err
+		}
+	}
 	t.partial = t.canPanic(fd.Body)
 	t.option = hasLoop(fd.Body) || t.partial
 	sig := p.info.Defs[fd.Name].(*types.Func).Type().(*types.Signature)
@@ -1315,7 +1794,17 @@ func translate(p *pkgInfo, sp spec, total map[string]string) (coqName, text stri
 		if err != nil {
 			return coqName, "", false, err
 		}
+		if _, ok := t.sliceElem(v.Type()); ok {
+			return coqName, "", false, t.bad(fd, "slice parameter %s (only receiver fields may be slices)", v.Name())
+		}
 		params += " (" + t.name(v) + " : " + ct + ")"
+	}
+	for _, f := range t.fields {
+		ct, err := t.coqType(f.Type(), fd)
+		if err != nil {
+			return coqName, "", false, err
+		}
+		params += " (" + t.name(f) + " : " + ct + ")"
 	}
 	var rts []string
 	for i := 0; i < sig.Results().Len(); i++ {
@@ -1326,8 +1815,12 @@ func translate(p *pkgInfo, sp spec, total map[string]string) (coqName, text stri
 		rts = append(rts, ct)
 	}
 	t.results = len(rts)
-	if t.results == 0 {
-		return coqName, "", false, t.bad(fd, "function without results")
+	for _, f := range t.asg {
+		ct, _ := t.coqType(f.Type(), fd)
+		rts = append(rts, ct)
+	}
+	if len(rts) == 0 {
+		return coqName, "", false, t.bad(fd, "function without results that assigns no receiver field")
 	}
 	rt := strings.Join(rts, " * ")
 	if len(rts) > 1 {
@@ -1336,7 +1829,14 @@ func translate(p *pkgInfo, sp spec, total map[string]string) (coqName, text stri
 	if t.option {
 		rt = "option " + rt
 	}
-	body, err := t.seq(fd.Body.List, "", "  ")
+	kTop := ""
+	if t.results == 0 { // no result of its own: falling off the end returns the assigned fields
+		kTop = t.ret(nil)
+		if t.option {
+			t.optK[kTop] = true
+		}
+	}
+	body, err := t.seq(fd.Body.List, kTop, "  ")
 	if err != nil {
 		return coqName, "", false, err
 	}
